@@ -114,7 +114,7 @@ def run(ctx):
             if ctx.G.callers.get(f.path, set()) & scope:
                 tscope.add(f.path)
     obs = g_obligations(ctx, tscope, ("index", "slice", "arith", "shift", "div", "panic"), free_inputs=free)
-    ctx.floor("C05.partial-operation-sites", len(obs), 10)
+    ctx.floor("C05.partial-operation-sites", len(obs), 3)
     for o in obs:
         ctx.add(o)
 
@@ -297,6 +297,13 @@ def limit_exits(ctx, s, fn, filt):
             if r and r[0] == "<" and r[2] == v and (r[1][0] in ("phi", "call")):
                 ok = True
         isct = v[0] == "call" and v[1].endswith("::created_at")
+        if v[0] == "call" and v[1].rsplit("::", 1)[-1] == "max" and len(v[2]) == 2:
+            # since = max(since, created_at): raised by construction
+            a0, a1 = unbyref(v[2][0]), unbyref(v[2][1])
+            cur = lambda x: x[0] == "phi" and x[2][0] == "local" and x[2][1] in since_locals
+            ct = lambda x: x[0] == "call" and x[1].endswith("::created_at")
+            if (cur(a0) and ct(a1)) or (cur(a1) and ct(a0)):
+                ok = isct = True
         s.add("S-REL", fn, "since-only-raised", "since=created_at", fn.blocks[b]["stmts"][i]["sp"] if isinstance(i, int) else fn.sp,
               PROVED if (ok and isct) else VIOLATION,
               "since is replaced only by an accepted event's created_at that is greater than the current since" if (ok and isct) else
